@@ -76,5 +76,3 @@ func childMain() {
 		crashChild()
 	}
 }
-
-func crashChild() {}
